@@ -92,7 +92,7 @@ var constContexts = []string{
 	"if true {%A}",
 	"for 2 {func(){%A}()}",
 	"func(){func(){%A}()}()",
-	"() => {%A}",        // defined, never called: must be harmless
+	"() => {%A}", // defined, never called: must be harmless
 	"x9 = [1].0; if x9 == 1 {for [1,2] {%A}}",
 }
 
